@@ -128,13 +128,29 @@ impl Highlight {
         // If the span is not over multiple lines, there is no riser portion.
         if *riser_state == RiserState::Unused { return Ok(()); }
 
+        let start = self.span.start().page;
+        let end = self.span.end().page;
+
+        // A highlight which starts above the first displayed line has its
+        // riser running from the first row, unless it also ends above it.
+        if *riser_state == RiserState::Waiting && current_line > start.line {
+            *riser_state = RiserState::Started;
+        }
+        if *riser_state == RiserState::Started && current_line > end.line {
+            *riser_state = RiserState::Ended;
+        }
+
         match *riser_state {
             RiserState::Unused  => Ok(()),
 
             RiserState::Ended   => write!(out, " "),
 
-            RiserState::Waiting => if !is_active_riser 
-                && self.span.start().page.column == 0
+            // The riser starts on the source row of the start line if the
+            // highlight starts at column 0, and otherwise below the
+            // highlight's own start message row.
+            RiserState::Waiting => if current_line == start.line
+                && !is_active_riser 
+                && start.column == 0
                 && !self.has_message_for_line(current_line)
             {
                 *riser_state = RiserState::Started;
@@ -144,7 +160,7 @@ impl Highlight {
                     write!(out, "/")
                 }
 
-            } else if self.has_message_for_line(current_line) {
+            } else if current_line == start.line && is_active_riser {
                 *riser_state = RiserState::Started;
                 write!(out, " ")
 
@@ -152,8 +168,11 @@ impl Highlight {
                 write!(out, " ")
             },
 
-            RiserState::Started => if !is_active_riser 
-                && self.span.end().page.column == 0
+            // The riser ends on the highlight's own end message row (or on
+            // the source row of the end line if there is no such row.)
+            RiserState::Started => if current_line == end.line
+                && !is_active_riser 
+                && end.column == 0
                 && !self.has_message_for_line(current_line)
             {
                 *riser_state = RiserState::Ended;
@@ -163,9 +182,7 @@ impl Highlight {
                     write!(out, "\\")
                 }
 
-            } else if is_active_riser 
-                && self.has_message_for_line(current_line)
-            {
+            } else if current_line == end.line && is_active_riser {
                 *riser_state = RiserState::Ended;
                 write!(out, "|")
             } else {
